@@ -65,6 +65,10 @@ CHECKS = {
          "Sound static analysis deciding the varint clauses for all values at once: both writers branch on the same ordered thresholds 2^6-1/2^14-1/2^30-1/2^62-1 with sizes 1/2/4/8 and reject larger values (first match wins, so the shortest form); for each class the decoder's expression over the encoder's bytes is the identity on v and the length reported equals the bytes appended; decoded values stay below 2^(8n-2) for arbitrary input; every b[k] is read behind len(b) >= n and failure (0,-1) occurs exactly on the negated guard; Consume*Bytes return b[prefix:prefix+size] and prefix+size (linear identities), fail exactly when that exceeds len(b), with no narrowing (also with 32-bit int); Append*Bytes layouts mirror them and the uint8 length is narrowed only after the check; the appenders write the destination only through append.",
          "Trusts go/ssa, this checker's bit domain, range prover and effect analysis; append does not modify existing elements; encoding/binary as documented. An encoder not written as append of byte expressions is outside the bit domain and is reported as undecided (failing).",
          "DESIGN.md §4 C19"),
+ "C20": ("abstract interpretation of the padding arithmetic over residue classes (n = 0; n = 32q+r for r = 1..32 with q symbolic; +, -, constant *, /, % exact in the affine-in-q domain with Go's truncated remainder), content terms of the padded buffer, an inductive backward-scan rule for the unpadder (guard-dominance facts + linear range proving), def-use flow of the origin-name parameter, sealed-plaintext layout term, dominance of signing by the exact map-lookup hit",
+         "Sound static analysis deciding the padding and unpadding clauses for all name lengths below 2^31-64: padOriginName returns name || zeros of total length 32*max(1, ceil(n/32)); unpadOriginName starts at the last byte, steps down by one only over zero bytes, returns the prefix ending at the first non-zero byte found from the end and \"\" if none (so it strips exactly the trailing zeros and inverts padding on names not ending in a zero byte); the name parameter reaches the request only through padOriginName and every other field of the sealed plaintext has a name-independent width; the issuer looks the unpadded name up by exact map key and signs only on a hit. Does not decide that HPKE and the outer codecs transport the padded field unchanged (C01/C04, go-hpke contract).",
+         "Trusts go/ssa, this checker's term evaluator, range prover and affine residue domain; a padding size computed with branches (outside +,-,*,/,% of the length) is reported as undecided (failing).",
+         "DESIGN.md §4 C20"),
  "C01": ("writer/reader layout agreement and parameter agreement between the two ends of each protocol: symbolic byte-layout terms, checked read sequences, widths from go/types constants, return-term bindings on SSA",
          "Sound static analysis of structural necessary conditions of an honest run completing: request encoders and the decoders the issuers use agree (widths = length of what the client stores); each issuer's response layout is what its client splits and parses; tokens are type||nonce||SHA-256(challenge)||key id||authenticator with widths 48/256/256/64 and are decoded from state token input || finalize output; constructors bind the token input to the type constant, nonce, challenge digest and key id; both ends name the same suite, hash, info strings, labels and exported-secret length. Does not decide that the cryptography completes and verifies (dependencies' contract).",
          "Trusts go/types, go/ssa, this checker's term and reader extractors, the layout table (c04.go), circl/go-hpke/crypto as documented.",
